@@ -247,8 +247,15 @@ package main
 // ClientOffers: a client naming an unknown bridge is never matched; the offer goes to the matched entry's private
 // channel; the answer returned is the one received on that entry's answer channel; after a match the entry is
 // unregistered before the matching lock is released for the last time.
+//@ ghost var atSelect bool
+//@ ghost var matchCounted bool
+//@ ghost var answeredPoll bool
+//@ ghost var deniedCounted bool
+//@ ghost var ansRecvs0 int
+//@ ghost var mc0 int
+//@ ghost var dc0 int
 //@ func (i *IPC) ClientOffers(arg messages.Arg, response *[]byte) (err error)
-//@   props C02, C03, C04, C14
+//@   props C02, C03, C04, C14, C19
 //@   flag concurrent nosafety paired-send=Broker$1 lifetime=After
 //@   requires i != nil && i.ctx != nil && response != nil
 //   (label names: established by initPrometheus - ensures, checked - and kept by the immutability of every field on the way)
@@ -260,6 +267,26 @@ package main
 //@   at call sendClientResponse assert {answer-is-the-one-received-on-that-entrys-channel} arg0.Answer != "" ==> arg0.Answer == answer
 //@   at call Unlock assert {unregistered-when-the-matching-lock-is-released} held(&i.ctx.snowflakeLock) ==> !has(i.ctx.idToSnowflake, snowflake.id)
 //@   ensures {at-most-one-offer-sent} calls(matchSnowflake) <= 1
+//   (C19) the counters move with their events: a client poll is counted as MATCHED only once a proxy's answer has
+//   been received for it (a proxy that takes the offer and never answers is a time-out, not a match), as DENIED only
+//   when no proxy could be matched - in the metrics log counters and in the Prometheus vector alike, once each.
+//@   at entry ghost atSelect = false
+//@   at entry ghost matchCounted = false
+//@   at entry ghost deniedCounted = false
+//@   at call select ghost atSelect = true
+//@   at call select ghost ansRecvs0 = recvs(snowflake.answerChannel)
+//@   after call Lock ghost mc0 = i.ctx.metrics.clientProxyMatchCount if held(&i.ctx.metrics.lock)
+//@   after call Lock ghost dc0 = i.ctx.metrics.clientDeniedCount if held(&i.ctx.metrics.lock)
+//@   at call Unlock assert {match-count-moves-only-with-an-answer} held(&i.ctx.metrics.lock) ==> i.ctx.metrics.clientProxyMatchCount == mc0 || (i.ctx.metrics.clientProxyMatchCount == mc0 + 1 && !matchCounted && atSelect && recvs(snowflake.answerChannel) == ansRecvs0 + 1)
+//@   at call Unlock assert {denied-count-moves-only-with-a-refusal} held(&i.ctx.metrics.lock) ==> i.ctx.metrics.clientDeniedCount == dc0 || (i.ctx.metrics.clientDeniedCount == dc0 + 1 && !deniedCounted && calls(matchSnowflake) == 1 && snowflake == nil)
+//@   at call Unlock ghost matchCounted = true if held(&i.ctx.metrics.lock) && i.ctx.metrics.clientProxyMatchCount == mc0 + 1
+//@   at call Unlock ghost deniedCounted = true if held(&i.ctx.metrics.lock) && i.ctx.metrics.clientDeniedCount == dc0 + 1
+//@   at call With assert {published-status-is-the-event} (arg1["status"] == "matched" ==> atSelect && recvs(snowflake.answerChannel) == ansRecvs0 + 1) && (arg1["status"] == "denied" ==> calls(matchSnowflake) == 1 && snowflake == nil)
+//@   at entry ghost answeredPoll = false
+//   (the round-trip estimate is taken exactly on the answered path: that call marks it)
+//@   at call Since ghost answeredPoll = true
+//@   ensures {every-answered-poll-is-counted-once} answeredPoll ==> matchCounted
+//@   ensures {every-refused-poll-is-counted-once} calls(matchSnowflake) == 1 && snowflake == nil ==> deniedCounted
 //@   ensures {every-request-is-answered-unless-its-bridge-is-unknown} calls(sendClientResponse) == 1 || (err != nil && calls(matchSnowflake) == 0 && calls(sendClientResponse) == 0)
 //
 //@ func sendClientResponse(resp *messages.ClientPollResponse, response *[]byte) (err error)
@@ -413,6 +440,10 @@ package main
 //
 // ---- lock discipline (C20) ----
 //@ guarded BrokerContext.idToSnowflake by snowflakeLock
+// The distinct-IP journal writer has no lock of its own: the broker serialises it with the metrics lock (its sketch
+// and its interval clock are read, written to disk and reset as one step only because of that: C19).
+//@ guarded sinkcluster.ClusterWriter.lastWriteTime by Metrics.lock [C19,C20]
+//@ guarded sinkcluster.ClusterWriter.current by Metrics.lock [C19,C20]
 //@ guarded Snowflake.index by BrokerContext.snowflakeLock
 //@ guarded Metrics.countryStats by lock
 //@ guarded Metrics.geoipdb by lock
